@@ -90,6 +90,9 @@ MUTANTS = [
  ("OctreeMerge", "OctreeMerge_A2.cfg", "OctreeMerge.tla",
   'CASE cell[1] = "L" -> Leaf(cell[2] + voff, cell[3])', 'CASE cell[1] = "L" -> Leaf(cell[2], cell[3])',
   "leaf vertex indices not rebased when a local octree is merged"),
+ ("OctreeMerge", "OctreeMerge_A2.cfg", "OctreeMerge.tla",
+  "THEN <<Leaf(Len(o.verts), 1), [o EXCEPT !.verts = Append(o.verts, -1 - g)]>>", "THEN <<Leaf(Len(o.verts), 1), o>>",
+  "a split cell collapsed by the fix-up points at a vertex that is never appended"),
 ]
 
 
